@@ -1,7 +1,7 @@
 (** Executable entry points of the C05 model (dictionaries).  Values are
     tlb.Uint32 (32 bits inline, printed n<hex>); keys are printed as their bits. *)
 From Coq Require Import List NArith ZArith String Bool.
-From Tongo Require Import Lib.Bits Lib.Res Lib.Sx Spec.Dict Model.Hashmap Model.HashmapHist.
+From Tongo Require Import Lib.Bits Lib.Res Lib.Sx Spec.Dict Model.Hashmap Model.HashmapHist Model.HashmapAug.
 Import ListNotations.
 Local Open Scope string_scope.
 Local Open Scope list_scope.
@@ -385,6 +385,143 @@ Definition run_dec (a : sx) : sx :=
   | _ => sx_err "dec"
   end.
 
+(* c05.count: (n hashmapE cell): countLeafs (hashmapE = f) / hashmapAugExtraCountLeafs
+   (hashmapE = t; for n = 256 through BlockExtra.InMsgDescrLength and OutMsgDescrLength)
+   -> n<count> | 'err *)
+Definition run_count (a : sx) : sx :=
+  match a with
+  | SL [SN n; SB e; c] =>
+      match cell_sx c with
+      | Some c => sx_res SN (if e then count_leafs_e (N.to_nat n) c else count_leafs (N.to_nat n) c)
+      | None => sx_err "count cell"
+      end
+  | _ => sx_err "count"
+  end.
+
+(* c05.lsize: (m bits): loadLabelSize(m, cell with these bits) -> (length unread-bits) | 'err *)
+Definition run_lsize (a : sx) : sx :=
+  match a with
+  | SL [SN m; SBits b] =>
+      sx_res (fun r => SL [SN (fst r); SN (N.of_nat (List.length (snd r)))]) (load_label_size (N.to_nat m) b)
+  | _ => sx_err "lsize"
+  end.
+
+(* c05.aug: (n cell): HashmapAugE[key, Uint32, Uint32].UnmarshalTLB, Keys()/Values()
+   -> ((key value) ...) | 'err *)
+Definition xdec_u32 (l : bits) (rs : list cell) : option (N * bits * list cell) :=
+  if short 32 l then None else Some (N_of_bits (firstn 32 l), skipn 32 l, rs).
+
+Definition run_aug (a : sx) : sx :=
+  match a with
+  | SL [SN n; c] =>
+      match cell_sx c with
+      | Some c => sx_res sx_items (decode_aug_e vdec_val xdec_u32 (N.to_nat n) c)
+      | None => sx_err "aug cell"
+      end
+  | _ => sx_err "aug"
+  end.
+
+(* c05.cfg: (build (step ...)): histories on tlb.ConfigParams objects
+   { ConfigAddr bits256 (all zero here); Config Hashmap[Uint32, Ref[boc.Cell]] ^ }.
+   A value is a reference to a cell holding 32 bits, printed as that number.
+   build = ('new ((key value) ...)) NewHashmap with the slices in that order
+         | ('dec cell) Unmarshal of a ConfigParams cell.
+   steps on object i: ('items i) ('get i k) ('put i k v) ('marshal i)
+         ('clone i (key ...)) = CloneKeepingSubsetOfKeys, the clone becomes the next object
+         ('decode i cell) Unmarshal INTO object i.  -> (result ...) *)
+Definition venc_cref (v : N) : bits * list cell := ([], [Cell (bits_of 32 v) []]).
+Definition vdec_cref (_ : bits) (rs : list cell) : option N :=
+  match rs with
+  | Cell b _ :: _ => if short 32 b then None else Some (N_of_bits (firstn 32 b))
+  | [] => None
+  end.
+
+Definition cfg_marshal (m : list (bits * N)) : res cell :=
+  do c <- encode venc_cref 32 m; mk_cell (zeros 256) [c].
+
+Definition cfg_decode (c : cell) : res (list (bits * N)) :=
+  match c with
+  | Cell b (r :: _) => if short 256 b then Err ENotEnoughBits else decode vdec_cref 32 r
+  | Cell _ [] => Err ENotEnoughRefs
+  end.
+
+Fixpoint keys_sx (l : list sx) : list bits :=
+  match l with
+  | SBits k :: t => k :: keys_sx t
+  | _ :: t => keys_sx t
+  | [] => []
+  end.
+
+Definition nth_state (i : N) (st : list (list (bits * N))) : list (bits * N) :=
+  nth (N.to_nat i) st [].
+
+Fixpoint run_cfg_steps (st : list (list (bits * N))) (steps : list sx) : list sx :=
+  match steps with
+  | [] => []
+  | s :: t =>
+      match s with
+      | SL [SA nm; SN i] =>
+          if (N.of_nat (List.length st) <=? i)%N then sx_err "cfg object" :: run_cfg_steps st t
+          else if String.eqb nm "items" then sx_items (nth_state i st) :: run_cfg_steps st t
+          else if String.eqb nm "marshal" then sx_res sx_cell (cfg_marshal (nth_state i st)) :: run_cfg_steps st t
+          else sx_err "cfg step" :: run_cfg_steps st t
+      | SL [SA nm; SN i; x] =>
+          if (N.of_nat (List.length st) <=? i)%N then sx_err "cfg object" :: run_cfg_steps st t
+          else if String.eqb nm "get" then
+            match x with
+            | SBits k =>
+                (match get bits_eqb k (nth_state i st) with Some v => SL [SN v] | None => SA "none" end)
+                  :: run_cfg_steps st t
+            | _ => sx_err "cfg step" :: run_cfg_steps st t
+            end
+          else if String.eqb nm "clone" then
+            match x with
+            | SL ks => SA "ok" :: run_cfg_steps (st ++ [clone_subset (keys_sx ks) (nth_state i st)]) t
+            | _ => sx_err "cfg step" :: run_cfg_steps st t
+            end
+          else if String.eqb nm "decode" then
+            match cell_sx x with
+            | Some c =>
+                match cfg_decode c with
+                | Ok m => SA "ok" :: run_cfg_steps (set_nth (N.to_nat i) m st) t
+                | _ => SA "err" :: run_cfg_steps (set_nth (N.to_nat i) [] st) t
+                end
+            | None => sx_err "cfg cell" :: run_cfg_steps st t
+            end
+          else sx_err "cfg step" :: run_cfg_steps st t
+      | SL [SA nm; SN i; SBits k; SN v] =>
+          if (N.of_nat (List.length st) <=? i)%N then sx_err "cfg object" :: run_cfg_steps st t
+          else if String.eqb nm "put" then
+            SA "ok" :: run_cfg_steps (set_nth (N.to_nat i) (put bits_eqb bits_ltb k v (nth_state i st)) st) t
+          else sx_err "cfg step" :: run_cfg_steps st t
+      | _ => sx_err "cfg step" :: run_cfg_steps st t
+      end
+  end.
+
+Definition run_cfg (a : sx) : sx :=
+  match a with
+  | SL [SL [SA b; x]; SL steps] =>
+      if String.eqb b "new" then
+        match x with
+        | SL kvs =>
+            match items_sx kvs with
+            | Some l => SL (run_cfg_steps [l] steps)
+            | None => sx_err "cfg items"
+            end
+        | _ => sx_err "cfg items"
+        end
+      else
+        match cell_sx x with
+        | Some c =>
+            match cfg_decode c with
+            | Ok m => SL (run_cfg_steps [m] steps)
+            | _ => SA "err"
+            end
+        | None => sx_err "cfg cell"
+        end
+  | _ => sx_err "cfg"
+  end.
+
 Definition run (name : string) (a : sx) : sx :=
   let is x := String.eqb name x in
   if is "c05.encode" then run_encode a
@@ -395,4 +532,8 @@ Definition run (name : string) (a : sx) : sx :=
   else if is "c05.addr" then run_addr a
   else if is "c05.hist" then run_hist a
   else if is "c05.dec" then run_dec a
+  else if is "c05.count" then run_count a
+  else if is "c05.lsize" then run_lsize a
+  else if is "c05.aug" then run_aug a
+  else if is "c05.cfg" then run_cfg a
   else sx_err "unknown case kind".
